@@ -25,7 +25,7 @@ def run(ctx):
     vlib.write_ndjson(pf, plans)
     traces = ctx.path("traces.ndjson")
     p = vlib.run_harness(ctx, binary, ["mboxfs-c12", "--plans", pf, "--out", traces, "--tmp", ctx.path("sb", "x")[:-2],
-                                       "--extra", "200" if ctx.tier == "quick" else "5000"], timeout=3000)
+                                       "--extra", "200" if ctx.tier == "quick" else "12000"], timeout=3000)
     if p.returncode != 0:
         raise vlib.Undecided("mboxfs-c12 failed: rc=%d %s" % (p.returncode, p.stderr[-3000:]))
     st = json.loads(p.stdout.strip().splitlines()[-1])
